@@ -132,3 +132,31 @@ def rnp_mc_replay(ck, maxn, maxv, ks=(2, 3, 4, 5)):
     fails = ck.judge("JDrift", traces, {"DRIFT"}, what="spec->code replay of RNP (%d stimuli): difference and number of two-way base cases" % len(recs), count_events=lambda t: 1)
     ck.classify(fails, lambda fl: {"alg": "rnp", "key": fl["trace"]["key"], "model": fl["trace"]["m"], "code": fl["trace"]["c"]})
     ck.cat("rnp_model_replays", len(recs))
+
+
+def bc_mc(ck, maxn, maxv, cs):
+    cfg = ("CONSTANTS MaxN = %d MaxV = %d Cs = {%s}\nINIT Init\nNEXT Next\nINVARIANT DominanceSafe\nINVARIANT CoverLosesNothing\nINVARIANT SearchSafe\nINVARIANT Optimal\n"
+           % (maxn, maxv, ", ".join(map(str, cs))))
+    return ck.mc("BinCompletion", cfg, "MC bin-completion (abstract): dominance is safe, the undominated completions lose nothing, the pruned search stays safe and ends optimal; bags n<=%d v<=%d C in %s" % (maxn, maxv, list(cs)),
+                 coverage=True, required_actions=("ExpandSome",))
+
+
+def bc_assumptions(ck, quick):
+    """assumption (B) of BinCompletion.tla and the dominance relation itself, on direct calls of the real helper functions (DRIFT level)"""
+    import itertools
+    stim = []
+    for C in ((6, 7) if quick else (6, 7, 10)):
+        for nn in range(0, 5 if quick else 6):
+            for items in itertools.combinations_with_replacement(range(C - 1, 0, -1), nn):
+                for x in range(max(items) if items else 1, C + 1):
+                    stim.append({"kind": "comp", "x": x, "items": list(items), "C": C})
+    vals = range(5, 0, -1)
+    lists = [list(c) for m in range(0, 4) for c in itertools.combinations_with_replacement(vals, m)]
+    for l1 in lists:
+        for l2 in lists:
+            stim.append({"kind": "dom", "l1": l1, "l2": l2})
+    traces = core.pmap(drive.run_bc_helper, stim)
+    fails = ck.judge("JBC", traces, {"DRIFT"}, what="assumptions of the bin-completion model on the real find_bin_completions / is_dominant (%d direct calls)" % len(stim), chunk=8000,
+                     count_events=lambda t: 1)
+    ck.classify(fails, lambda fl: {"alg": "bc-helper", "call": fl["trace"]})
+    ck.cat("bc_helper_calls", len(stim))
